@@ -661,7 +661,7 @@ class SimInvalidateSpiral(Contract):
 
 class SimPurge(Contract):
     name = f"{SIM}.purge_cache_of_invalid_values"
-    prop = ("C02", "C18")
+    prop = ("C02", "C18", "C16")
     top_level = True
     cases = ("empty-stack", "non-empty-stack")
     descr = ("with an empty stack every marked (variable, period) is deleted from its holder and the mark set becomes empty; with "
